@@ -1,6 +1,7 @@
 (* ---- S-own2: allocation / free event traces of the second part of the ownership model (C18, Model/MOwn2.v) ---- *)
 let own2_fn_table = [ "hostport", 0; "uri_hostport", 1; "parse_uri", 2; "normalize", 3; "request_line", 4; "res_header", 5; "res_buffer", 6;
-                      "decomp_create", 7; "decomp_used", 8; "res_state_headers", 9 ]
+                      "decomp_create", 7; "decomp_used", 8; "res_state_headers", 9;
+                      "urlenp", 10; "mpartp", 11; "tx_full", 12; "res_line", 13; "req_line", 14 ]
 let do_own2 f =
   let fn = List.nth f 1 in
   let args = if List.nth f 2 = "-" then [] else List.map (fun x -> nat_of_int (int_of_string x)) (String.split_on_char ',' (List.nth f 2)) in
